@@ -89,3 +89,9 @@ func verifLemma_C34_equiv5(p0, p1, p2, p3, p4 r2.Point, eps float64) {
 	verifrt.Assume(vNotNaN(p0) && vNotNaN(p1) && vNotNaN(p2) && vNotNaN(p3) && vNotNaN(p4))
 	verifHelper_C34check([]r2.Point{p0, p1, p2, p3, p4}, eps)
 }
+
+// Thorough tier: lines of 6 points.
+func verifLemma_C34_equiv6(p0, p1, p2, p3, p4, p5 r2.Point, eps float64) {
+	verifrt.Assume(vNotNaN(p0) && vNotNaN(p1) && vNotNaN(p2) && vNotNaN(p3) && vNotNaN(p4) && vNotNaN(p5))
+	verifHelper_C34check([]r2.Point{p0, p1, p2, p3, p4, p5}, eps)
+}
